@@ -2,7 +2,7 @@
 # usage: ./mut.sh <patch-file-or-sed-script> <Cxx> [tier]   -- run a check against a scratch copy of /repo with a change applied
 # The scratch copy lives under /tmp and is removed afterwards; /repo is never touched.
 set -e
-PATCH="$1"; PROP="$2"; TIER="${3:-quick}"
+PATCH="$(realpath "$1")"; PROP="$2"; TIER="${3:-quick}"
 W=$(mktemp -d /tmp/vfmut.XXXXXX)
 trap 'rm -rf "$W"' EXIT
 mkdir -p "$W/repo" && (cd /repo && git ls-files -z | xargs -0 cp --parents -t "$W/repo" 2>/dev/null) 
